@@ -386,7 +386,7 @@ func (w *W) Choose(lo, hi int64) int64 {
 		d := w.prefix[w.pos]
 		w.pos++
 		if d.Kind != 'v' {
-			panic("sx: replay divergence at choose")
+			panic(fmt.Sprintf("sx: replay divergence at choose: pos %d of %d, have kind %c; prefix kinds %s%s", w.pos-1, len(w.prefix), d.Kind, kinds(w.prefix), w.where()))
 		}
 		w.record(d)
 		return d.Val.Int64()
@@ -1292,4 +1292,15 @@ func (w *W) ifConvert(fr *frame, a *ssa.BasicBlock, c *smt.Term) (join *ssa.Basi
 	fr.phiDone = join
 	w.IfConversions++
 	return join
+}
+
+func kinds(ds []Decision) string {
+	b := make([]byte, len(ds))
+	for i, d := range ds {
+		b[i] = d.Kind
+		if d.Forced && d.Kind == 'b' {
+			b[i] = 'B'
+		}
+	}
+	return string(b)
 }
